@@ -117,6 +117,9 @@ def execute(ctx, case):
 
 
 def run(ctx):
+  if (ctx.shard or 0) == 0:
+    for mcs, flow in ((1, False), (2, True), (3, False)):
+      c02.enumerate_single(ctx, execute, extra={'max_cache_size': mcs, 'flow': flow})
   n_c, n_s = (260, 110) if ctx.quick else (900, 350)
   for i, s in enumerate(cachesim.STRATEGIES):
     run_given(ctx, bounded(c02.concurrent_cases(s)), execute, n_c, salt=30 + i)
